@@ -63,6 +63,19 @@ Insert(e) ==
     /\ rc' = IF Legacy THEN [rc EXCEPT ![e] = @ + 1] ELSE rc
     /\ UNCHANGED <<arrived, finished, wpc, cur, active, delivered, consBusy, emitDone, fired, failedF, dropped>>
 
+\* the function raises when it is *called* (a plain callable that rejects its argument before it hands back an awaitable):
+\* the job leaves the lock without a task, nothing is queued, the caller's emit raises, and the element stays retained --
+\* it is never reported as done.  (The elements behind it are not affected: their results keep their own metadata.)
+InsertFail(e) ==
+    /\ Faults /\ ~Legacy /\ ~ReleaseFailed
+    /\ ins # <<>> /\ e = Head(ins)
+    /\ IF EarlySlot THEN Len(q) < P ELSE Len(q) + active < P
+    /\ ins' = Tail(ins) /\ failedF' = failedF \cup {e} /\ dropped' = dropped \cup {e}
+    /\ UNCHANGED <<arrived, q, running, finished, wpc, cur, active, delivered, consBusy, emitDone, inserted, rc, fired>>
+Rejected(e) == e \in dropped /\ ~inserted[e]
+EmitRaised(e) == /\ Rejected(e) /\ ~emitDone[e] /\ emitDone' = [emitDone EXCEPT ![e] = TRUE]
+                 /\ UNCHANGED <<arrived, ins, q, running, finished, wpc, cur, active, delivered, consBusy, inserted, rc, fired, failedF, dropped>>
+
 EmitDone(e) == /\ inserted[e] /\ ~emitDone[e] /\ emitDone' = [emitDone EXCEPT ![e] = TRUE]
                /\ UNCHANGED <<arrived, ins, q, running, finished, wpc, cur, active, delivered, consBusy, inserted, rc, fired, failedF, dropped>>
 
@@ -101,9 +114,9 @@ WorkRelease == /\ wpc = "emitting" /\ ~consBusy
                /\ UNCHANGED <<arrived, ins, q, running, finished, active, delivered, consBusy, emitDone, inserted, failedF, dropped>>
 
 Internal == (\E e \in Elems : Insert(e)) \/ WorkGet \/ WorkEmit \/ WorkDrop \/ WorkRelease
-Next == (\E e \in Elems : Arrive(e) \/ EmitDone(e) \/ FuncFinish(e) \/ FuncFail(e)) \/ Internal \/ ConsumerDone
+Next == (\E e \in Elems : Arrive(e) \/ EmitDone(e) \/ EmitRaised(e) \/ FuncFinish(e) \/ FuncFail(e) \/ InsertFail(e)) \/ Internal \/ ConsumerDone
 Spec == Init /\ [][Next]_vars
-FairSpec == Spec /\ WF_vars(Internal) /\ WF_vars(ConsumerDone) /\ \A e \in Elems : WF_vars(FuncFinish(e) \/ FuncFail(e)) /\ WF_vars(EmitDone(e)) /\ WF_vars(Arrive(e))
+FairSpec == Spec /\ WF_vars(Internal) /\ WF_vars(ConsumerDone) /\ \A e \in Elems : WF_vars(FuncFinish(e) \/ FuncFail(e)) /\ WF_vars(EmitDone(e)) /\ WF_vars(EmitRaised(e)) /\ WF_vars(Arrive(e))
 
 ----------------------------------------------------------------------------
 Quiescent == ins = <<>> /\ q = <<>> /\ wpc = "idle" /\ running = {}
@@ -119,6 +132,8 @@ Parallelism == Cardinality(running) <= P
 Bound == Cardinality({e \in 1 .. arrived : inserted[e] /\ (e \in Range(q) \/ (cur = e /\ wpc = "awaiting"))}) <= P
 EmitsComplete == \A e \in Elems : (e <= arrived) ~> emitDone[e]
 AllDelivered == <>(Len(delivered) + Cardinality(dropped) = NE)
+\* C16: the emitter is told of a failure exactly when the function rejected its element at the call
+RaisedOnlyRejected == \A e \in Elems : Rejected(e) => e \in failedF
 \* C04 / C05
 InFlight(e) == e \in Range(ins) \/ e \in Range(q) \/ (cur = e /\ wpc \in {"awaiting", "emitting"})
 CbSafe == \A i \in 1 .. Len(fired) : ~InFlight(fired[i])
